@@ -120,6 +120,20 @@ impl<'a> Hook for Mon<'a> {
                         .collect();
                 }
                 1 => return vec![], // never answers: the request times out
+                2 => {
+                    // the peer's tip moved on: it answers with its new last state only (what a full node does when it
+                    // cannot serve the requested last hash); the fetches of that request have to be asked again
+                    let ci = w.peers[pi].chain;
+                    w.grow_chain(ci, 1);
+                    let c = &w.chains[ci];
+                    let data = if kind == "GetBlocksProof" {
+                        server::lc_msg(packed::SendBlocksProof::new_builder().last_header(c.vh(c.tip())).build())
+                    } else {
+                        server::lc_msg(packed::SendTransactionsProof::new_builder().last_header(c.vh(c.tip())).build())
+                    };
+                    self.invalid_answers += 1;
+                    return vec![Resp { proto: P::Lc, data, label: Label::Unjudged }];
+                }
                 _ => {}
             }
         }
@@ -182,7 +196,7 @@ fn scenario(seed: u64, k: u64, out: &Out) {
         let regs = pick_scripts(&mut rng, &w.chains[0], 2, len);
         set_scripts(&w, &regs, None);
     }
-    let mode = *rng.pick(&["honest", "honest", "invalid-answer", "mute-then-timeout", "disconnect-before-answer"]);
+    let mode = *rng.pick(&["honest", "honest", "invalid-answer", "mute-then-timeout", "disconnect-before-answer", "new-tip-only-answer"]);
     let desc = json!({"seed": seed, "scenario": k, "len": len, "peers": npeers, "mode": mode, "scripts": with_scripts, "last_n": ccfg.last_n, "fast_timers": w.timer_fast});
     let mut mon = Mon { out, reported_missing: HashSet::new(), bad_peer: None, bad_mode: 9, rng: rng.fork(3), invalid_answers: 0 };
     w.connect_all();
@@ -220,6 +234,10 @@ fn scenario(seed: u64, k: u64, out: &Out) {
             mon.bad_peer = Some(0);
             mon.bad_mode = 1;
         }
+        "new-tip-only-answer" => {
+            mon.bad_peer = Some(0);
+            mon.bad_mode = 2;
+        }
         _ => {}
     }
     let mut violated = false;
@@ -236,7 +254,7 @@ fn scenario(seed: u64, k: u64, out: &Out) {
             w.disconnect(0);
         }
         // after the bad behaviour the peer is honest again (it may reconnect)
-        if round == 3 && mode == "invalid-answer" {
+        if round == 3 && (mode == "invalid-answer" || mode == "new-tip-only-answer") {
             mon.bad_peer = None;
         }
         // the silent peer is dropped after the message timeout; its next session behaves
